@@ -374,12 +374,16 @@ pub fn run_c03(out: &mut Out, seed: u64, thorough: bool) {
     }
     // label-count sweep: N definitions made of labels, .EQU names and re-definitions (same spelling,
     // other letter case, .EQU of an existing label): accepted iff N <= 40, whatever the number of distinct names
-    for total in [1usize, 2, 39, 40, 41, 42, 45, 60] {
+    for total in [1usize, 2, 39, 40, 41, 42, 45, 60, 255, 256, 257, 296, 297, 512, 552] {
         for dups in [0usize, 1, 2, 7, 20] {
             if dups >= total {
                 continue;
             }
             for style in 0..4 {
+                // far beyond the limit (where a narrow counter would wrap): two shapes are enough
+                if total > 100 && (style >= 2 || (dups != 0 && dups != 7)) {
+                    continue;
+                }
                 let distinct = total - dups;
                 let mut lines: Vec<String> = vec![];
                 for i in 0..distinct {
